@@ -119,6 +119,11 @@ SEEDS = {
     'str': ['hello', ' padded ', '', '   ', 'two words', 'tab\there', 'semi;colon', 'hash # in', 'equals = sign', 'colon: here', 'unicode é ü', 'x' * 300, '[section]', "quote's", 'back\\slash'],
 }
 SEEDS['enum_empty'] = SEEDS['enum']
+# text a template or a format string leaves behind (braces), in every type
+for _t in list(SEEDS):
+    if _t != 'enum_empty':
+        SEEDS[_t] = SEEDS[_t] + ['{amount}', '{}', '{0}', '{input_name}', '}{', 'a{b', '{value}', '%s', '$(x)', '${x}']
+SEEDS['enum_empty'] = SEEDS['enum']
 
 
 def strings_for(itype, rng, n):
@@ -354,6 +359,10 @@ def run_shard(spec, tier, seed):
                 reads = [e for e in t.events if e[0] == 'READ_INPUT' and e[1] == key]
                 if not reads:
                     res.count('no_read_observed')
+                    if exc is not None and mode in ('file', 'prompt') and not isinstance(exc, (I.InvalidInput, I.MissingInput, AssertionError)):
+                        # the read itself blew up with something that is neither "missing" nor "invalid"
+                        res.violation(f'C11|{itype}|read-raises-{type(exc).__name__}|{sclass(s)}', f'[{mode}] {itype}: reading {s!r} raised {type(exc).__name__}: {str(exc)[:80]} (neither a value, nor missing, nor reported invalid)',
+                                      {'itype': itype, 'text': s, 'mode': mode, 'shard': spec})
                     continue
                 ev = reads[-1]
                 outcome = {'value': 'value', 'missing': 'missing', 'invalid': 'invalid', 'nospec': 'other'}[ev[2]]
